@@ -14,7 +14,7 @@ SiteSeq == SetToSeq(UNION {{<<k, s>> : s \in SitesFor(k, Thorough)} : k \in Judg
 \* (quick: every statement of a kind that has at most two, else one)
 WsSites(k) == IF Thorough \/ Cardinality(SitesOf(k)) <= 2 THEN SitesFor(k, Thorough) ELSE {OneSite(k)}
 WsSiteSeq == SetToSeq(UNION {{<<k, s>> : s \in WsSites(k)} : k \in JudgedKinds})
-AllFams == (1..Len(ParentSeq)) \cup {100 + i : i \in 1..Len(SiteSeq)} \cup {200, 201, 202, 203, 205, 206, 207, 208, 209, 300, 302, 303}
+AllFams == (1..Len(ParentSeq)) \cup {100 + i : i \in 1..Len(SiteSeq)} \cup {200, 201, 202, 203, 205, 206, 207, 208, 209, 300, 302, 303, 304}
            \cup {400 + i : i \in 1..Len(ParentSeq)} \cup {500 + i : i \in 1..Len(SiteSeq)}
            \cup {600 + i : i \in 1..Len(WsSiteSeq)}
 
@@ -74,6 +74,7 @@ GNext == /\ ~done /\ done' = TRUE /\ UNCHANGED fam
               ELSE IF fam >= 601 THEN WsProbes(fam)
               ELSE IF fam = 300 THEN RandBases
               ELSE IF fam = 302 THEN Hist(<<"cross", "", "">>, CrossHistories(IF Thorough THEN 1000 ELSE 80))
+              ELSE IF fam = 304 THEN ExtPlan(IF Thorough THEN 3 ELSE 2)
               ELSE IF fam = 303 THEN Hist(<<"card", "", "">>, CardHistories(IF Thorough THEN 68 ELSE 12))
               ELSE SiteHist(fam)))
 =============================================================================
